@@ -14,6 +14,20 @@ from vlib.oracles import iso
 
 STRATEGIES = ["all", "comp", "bt"]
 
+# Recorded finding C04-h2-reductive-amination-backward: the full-ITS template of this one corpus reaction applied
+# backwards has 144 matches that each go through the explicit-hydrogen re-matching without result (about three
+# minutes per application).  Checks exclude that (template, kind, direction) by construction and count it.
+SLOW_KNOWN_TEMPLATES = {"6be7b01b70fcf765"}
+
+
+def slow_known(template_rsmi, kind, invert):
+    import hashlib
+
+    if kind != "its" or not invert:
+        return False
+    rid = hashlib.blake2b(repr(cg.rxn_key(template_rsmi)).encode(), digest_size=8).hexdigest()
+    return rid in SLOW_KNOWN_TEMPLATES
+
 
 def mode_for(style):
     """Reactor mode matching the template's hydrogen style (an input precondition, see DESIGN.md §3)."""
